@@ -14,6 +14,7 @@ from ..ref import expr as re_
 ID = "C04"
 TITLE = "Constant expressions evaluate exactly, with the Specification's precedence"
 RULE = (
+    "(NFC comparisons also with operands assembled by + from pieces cut inside combining sequences.)  "
     "Cases are expression trees (typed recursive strategy over integer literals in every base with separators, real literals in point / "
     "exponent notation, strings in both quote styles with escapes, booleans, set literals, unary + - !, all binary operators, "
     ".min/.max/.count; depth <= 4; integer exponents |e| <= 16; an ill-typed variant splices one wrong-kind subtree, zero divisor, empty / "
